@@ -125,7 +125,7 @@ func Main() {
 			r.Floor("mconn_messages_of_exactly_capacity", 200)
 			r.Floor("mconn_messages_multiple_of_packet_size", 200)
 			r.Floor("mconn_channel_switches_at_receiver", 1000)
-			r.Floor("mconn_empty_messages_sent", 20)
+			r.Floor("mconn_empty_messages_accepted", 50)
 			r.Floor("mconn_oversize_refused_with_error", 50)
 			r.Floor("mconn_stop_race_accepted_but_lost_legitimately", 100)
 			r.Floor("porcupine_checks", 200)
